@@ -388,3 +388,202 @@ theorem allLocal_of_offers_everything {env : Env} {L : Loc} (hp : env.configured
     cases h; rfl
 
 end Pl
+
+/-! ### a follow-up step's insertion point lies below the insertion point of the step it hangs off -/
+namespace Pl
+
+/-- `a` is a prefix of `b` -/
+def IsPrefix (a b : List String) : Prop := ∃ t, b = a ++ t
+
+theorem isPrefix_refl (a : List String) : IsPrefix a a := ⟨[], by simp⟩
+theorem isPrefix_trans {a b c : List String} (h1 : IsPrefix a b) (h2 : IsPrefix b c) : IsPrefix a c := by
+  obtain ⟨t1, rfl⟩ := h1; obtain ⟨t2, rfl⟩ := h2; exact ⟨t1 ++ t2, by simp⟩
+
+/-- every pending step after a call is one that was pending before (same parent, same insertion point) or was
+    kicked off by the step being built, at or below the insertion point the call was made for -/
+def QueueBelow (step : Nat) (ip : List String) (before after : List Payload) : Prop :=
+  ∀ p' ∈ after, (∃ o ∈ before, p'.parent = o.parent ∧ p'.ip = o.ip) ∨ (p'.parent = some step ∧ IsPrefix ip p'.ip)
+
+theorem queueBelow_refl (step : Nat) (ip : List String) (q : List Payload) : QueueBelow step ip q q :=
+  fun p' h => Or.inl ⟨p', h, rfl, rfl⟩
+
+theorem queueBelow_trans {step : Nat} {ip : List String} {a b c : List Payload}
+    (h1 : QueueBelow step ip a b) (h2 : QueueBelow step ip b c) : QueueBelow step ip a c := by
+  intro p' hp
+  rcases h2 p' hp with ⟨o, ho, he1, he2⟩ | he
+  · rcases h1 o ho with ⟨o', ho', he1', he2'⟩ | ⟨he1', he2'⟩
+    · exact Or.inl ⟨o', ho', he1.trans he1', he2.trans he2'⟩
+    · exact Or.inr ⟨he1.trans he1', by rw [he2]; exact he2'⟩
+  · exact Or.inr he
+
+/-- a call made for a deeper insertion point only adds steps below the shallower one as well -/
+theorem queueBelow_weaken {step : Nat} {ip ip' : List String} {a b : List Payload} (hp : IsPrefix ip ip')
+    (h : QueueBelow step ip' a b) : QueueBelow step ip a b := by
+  intro p' hp'
+  rcases h p' hp' with h' | ⟨h1, h2⟩
+  · exact Or.inl h'
+  · exact Or.inr ⟨h1, isPrefix_trans hp h2⟩
+
+theorem addStep_below (q : List Payload) (p : Payload) :
+    ∀ p' ∈ addStep q p, (∃ o ∈ q, p'.parent = o.parent ∧ p'.ip = o.ip) ∨ (p'.parent = p.parent ∧ p'.ip = p.ip) := by
+  induction q with
+  | nil => intro p' h; simp only [addStep, List.mem_singleton] at h; subst h; exact Or.inr ⟨rfl, rfl⟩
+  | cons x xs ih =>
+    intro p' h
+    simp only [addStep] at h
+    split at h
+    · rcases List.mem_cons.1 h with h | h
+      · subst h; exact Or.inl ⟨x, List.mem_cons_self .., rfl, rfl⟩
+      · exact Or.inl ⟨p', List.mem_cons_of_mem _ h, rfl, rfl⟩
+    · rcases List.mem_cons.1 h with h | h
+      · subst h; exact Or.inl ⟨p', List.mem_cons_self .., rfl, rfl⟩
+      · rcases ih p' h with ⟨o, ho, he⟩ | he
+        · exact Or.inl ⟨o, List.mem_cons_of_mem _ ho, he⟩
+        · exact Or.inr he
+
+theorem kickOff_below {cfg : Cfg} {lfr : Buckets FragDef} :
+    ∀ (lf : Buckets Sel) (st st1 : St), kickOff cfg lfr lf st = .ok st1 → QueueBelow cfg.step cfg.ip st.queue st1.queue
+  | [], st, st1, h => by simp only [kickOff] at h; cases h; exact queueBelow_refl _ _ _
+  | (location, ss) :: rest, st, st1, h => by
+    simp only [kickOff] at h
+    split at h
+    · exact kickOff_below rest st st1 h
+    · split at h
+      · cases h
+      · rename_i ss' fr' _
+        refine queueBelow_trans ?_ (kickOff_below rest _ st1 h)
+        intro p' hp
+        rcases addStep_below st.queue _ p' hp with h' | ⟨h1, h2⟩
+        · exact Or.inl h'
+        · exact Or.inr ⟨h1, by rw [h2]; exact isPrefix_refl _⟩
+
+def RecBelow (rec : Cfg → St → Except Err (List Sel × St)) : Prop :=
+  ∀ cfg st sel st', rec cfg st = .ok (sel, st') → QueueBelow cfg.step cfg.ip st.queue st'.queue
+
+theorem processSel_below {rec : Cfg → St → Except Err (List Sel × St)} (hrec : RecBelow rec) {cfg : Cfg}
+    {localFrags : List FragDef} {s s' : Sel} {st st' : St}
+    (h : processSel rec cfg localFrags s st = .ok (s', st')) : QueueBelow cfg.step cfg.ip st.queue st'.queue := by
+  cases s with
+  | field a n g gv d t sub =>
+    simp only [processSel] at h
+    split at h
+    · cases h; exact queueBelow_refl _ _ _
+    · split at h
+      · cases h
+      · rename_i sub' st1 hr
+        cases h
+        have := hrec _ _ _ _ hr
+        have := queueBelow_weaken (ip := cfg.ip) ⟨[a], rfl⟩ this
+        simpa using this
+  | spread name dirs =>
+    simp only [processSel] at h
+    split at h
+    · cases h
+    · split at h
+      · cases h
+      · rename_i sub' st1 hr
+        have := hrec _ _ _ _ hr
+        split at h
+        · cases h; simpa using this
+        · split at h <;> (cases h; simpa using this)
+  | inline cond dirs sub =>
+    simp only [processSel] at h
+    split at h
+    · cases h
+    · rename_i sub' st1 hr
+      cases h
+      have := hrec _ _ _ _ hr
+      simpa using this
+
+theorem processSels_below {rec : Cfg → St → Except Err (List Sel × St)} (hrec : RecBelow rec) {cfg : Cfg}
+    {localFrags : List FragDef} :
+    ∀ (ss ss' : List Sel) (st st' : St), processSels rec cfg localFrags ss st = .ok (ss', st') →
+      QueueBelow cfg.step cfg.ip st.queue st'.queue
+  | [], ss', st, st', h => by simp only [processSels] at h; cases h; exact queueBelow_refl _ _ _
+  | s :: ss, ss', st, st', h => by
+    simp only [processSels] at h
+    cases h1 : processSel rec cfg localFrags s st with
+    | error e => rw [h1] at h; cases h
+    | ok r1 =>
+      obtain ⟨s1, st1⟩ := r1
+      rw [h1] at h; simp only at h
+      cases h2 : processSels rec cfg localFrags ss st1 with
+      | error e => rw [h2] at h; cases h
+      | ok r2 =>
+        obtain ⟨ss1, st2⟩ := r2
+        rw [h2] at h; simp only at h
+        have a := processSel_below hrec h1
+        have b := processSels_below hrec ss ss1 st1 st2 h2
+        cases h
+        exact queueBelow_trans a b
+
+theorem extract_below (env : Env) : ∀ (fuel : Nat), RecBelow (extract env fuel)
+  | 0 => by intro cfg st sel st' h; simp only [extract] at h; cases h
+  | n + 1 => by
+    intro cfg st sel st' h
+    simp only [extract] at h
+    split at h
+    · cases h
+    · rename_i lf lfr _
+      split at h
+      · cases h
+      · rename_i st1 hk
+        exact queueBelow_trans (kickOff_below lf st st1 hk) (processSels_below (extract_below env n) _ _ _ _ h)
+
+/-- the work list: whoever is named as a parent is a built step whose insertion point is a prefix of the namer's -/
+structure BelowInv (next : Nat) (queue : List Payload) (acc : List Step) : Prop where
+  ids : ∀ t ∈ acc, t.id < next
+  pending : ∀ p ∈ queue, ∀ q, p.parent = some q → ∃ s ∈ acc, s.id = q ∧ IsPrefix s.ip p.ip
+  built : ∀ t ∈ acc, ∀ q, t.parent = some q → ∃ s ∈ acc, s.id = q ∧ IsPrefix s.ip t.ip
+
+theorem buildSteps_below (env : Env) (fuel : Nat) :
+    ∀ (k next : Nat) (queue : List Payload) (acc res : List Step),
+      buildSteps env fuel k next queue acc = .ok res → BelowInv next queue acc →
+      ∀ t ∈ res, ∀ q, t.parent = some q → ∃ s ∈ res, s.id = q ∧ IsPrefix s.ip t.ip
+  | 0, _, [], acc, res, h, hi => by simp only [buildSteps] at h; cases h; exact hi.built
+  | 0, _, _ :: _, _, _, h, _ => by simp only [buildSteps] at h; cases h
+  | _ + 1, _, [], acc, res, h, hi => by simp only [buildSteps] at h; cases h; exact hi.built
+  | k + 1, next, p :: queue, acc, res, h, hi => by
+    simp only [buildSteps] at h
+    split at h
+    · cases h
+    · rename_i sel st he
+      refine buildSteps_below env fuel k _ _ _ res h ?_
+      have hq := extract_below env fuel _ _ _ _ he
+      simp only at hq
+      constructor
+      · intro t ht
+        rcases List.mem_append.1 ht with ht | ht
+        · exact Nat.lt_succ_of_lt (hi.ids t ht)
+        · have : t = _ := List.mem_singleton.1 ht
+          subst this; exact Nat.lt_succ_self _
+      · intro p' hp' q hpq
+        rcases hq p' hp' with ⟨o, ho, he1, he2⟩ | ⟨he1, he2⟩
+        · obtain ⟨s, hs, h1, h2⟩ := hi.pending o (List.mem_cons_of_mem _ ho) q (he1 ▸ hpq)
+          exact ⟨s, List.mem_append.2 (Or.inl hs), h1, he2 ▸ h2⟩
+        · have hqn : q = next := by rw [he1] at hpq; exact (Option.some.inj hpq).symm
+          subst hqn
+          exact ⟨_, List.mem_append.2 (Or.inr (List.mem_singleton.2 rfl)), rfl, he2⟩
+      · intro t ht q htq
+        rcases List.mem_append.1 ht with ht | ht
+        · obtain ⟨s, hs, h1, h2⟩ := hi.built t ht q htq
+          exact ⟨s, List.mem_append.2 (Or.inl hs), h1, h2⟩
+        · have : t = _ := List.mem_singleton.1 ht
+          subst this
+          obtain ⟨s, hs, h1, h2⟩ := hi.pending p (List.mem_cons_self ..) q htq
+          exact ⟨s, List.mem_append.2 (Or.inl hs), h1, h2⟩
+
+/-- **Every follow-up step is inserted below the step it hangs off**: its insertion point extends its parent's
+    (what the executor relies on when it searches the parent's own reply for the rest of the path). -/
+theorem planOperation_ip_below {env : Env} {fuel : Nat} {operation : String} {sels : List Sel} {steps : List Step}
+    (h : planOperation env fuel operation sels = .ok steps) :
+    ∀ t ∈ steps, ∀ q, t.parent = some q → ∃ s ∈ steps, s.id = q ∧ IsPrefix s.ip t.ip := by
+  refine buildSteps_below env fuel _ _ _ _ _ h ?_
+  constructor
+  · intro t ht; cases ht
+  · intro p hp q hpq
+    have : p = _ := List.mem_singleton.1 hp
+    subst this; cases hpq
+  · intro t ht; cases ht
+
+end Pl
